@@ -497,6 +497,21 @@ pub fn eval_ext(op: &str, args: &[P]) -> String {
         std::mem::forget(ctx);
         return out;
     }
+    if let Some(rest) = op.strip_prefix("E:") {
+        // list equality: "<n>:<m>": the first n operands are list a, the next m list b; the real Primitive::equals
+        let parts: Vec<&str> = rest.split(':').collect();
+        let n: usize = parts[0].parse().unwrap();
+        let mut a = P::Vector(crate::GcVector::new(args[..n].to_vec()));
+        let mut b = P::Vector(crate::GcVector::new(args[n..].to_vec()));
+        if parts.len() > 2 && parts[2] == "nested" {
+            a = P::Vector(crate::GcVector::new(vec![a]));
+            b = P::Vector(crate::GcVector::new(vec![b]));
+        }
+        return match a.equals(&b) {
+            Ok(r) => format!("OK Bool:{}", r as u8),
+            Err(_) => "ERR".to_string(),
+        };
+    }
     if let Some(rest) = op.strip_prefix("P:") {
         // `a[k] op= v`: op = "<op>:<n>:<k>"; the first n operands are the list's elements, the last one is v
         let parts: Vec<&str> = rest.split(':').collect();
